@@ -268,7 +268,8 @@ func c09Body(s *simkit.Sim, rc *simkit.RunCtx) {
 		kinds := []string{"honest-service", "honest-service", "honest-add-key", "honest-remove-old-key", "honest-set-controller", "honest-drop-controller", "honest-deactivate", "honest-new-did",
 			"attack-foreign-create", "attack-non-controller-key", "attack-own-key-of-controlled-document", "attack-invalid-key-id-kid-in-jwk",
 			"honest-demote-key", "honest-demote-key", "honest-deactivate-keeping-key", "attack-demoted-controller-key-backdated", "attack-demoted-controller-key-backdated", "attack-deactivated-controller-key-by-deactivation", "attack-assertion-only-key", "attack-removed-key", "attack-deactivated-controller-key",
-			"attack-invalid-id-prefix", "attack-invalid-duplicate-id", "attack-invalid-key-id", "attack-invalid-two-services-one-type", "attack-invalid-foreign-vm-controller"}
+			"attack-invalid-id-prefix", "attack-invalid-duplicate-id", "attack-invalid-key-id", "attack-invalid-two-services-one-type", "attack-invalid-foreign-vm-controller",
+			"attack-invalid-key-swapped-under-existing-id", "attack-invalid-key-swapped-under-existing-id", "attack-invalid-embedded-method-foreign-id", "attack-invalid-embedded-method-not-thumbprint"}
 		kind := kinds[s.D.Decide("kind", len(kinds))]
 		var signer *c9Key
 		var signerDID *c9DID
@@ -586,6 +587,26 @@ func c09Body(s *simkit.Sim, rc *simkit.RunCtx) {
 			nk := newC9Key()
 			vm, _ := did.NewVerificationMethod(did.DIDURL{DID: target.id, Fragment: "not-the-thumbprint"}, ssi.JsonWebKey2020, target.id, nk.priv.Public())
 			next.AddCapabilityInvocation(vm)
+			valid = false
+		case "attack-invalid-key-swapped-under-existing-id":
+			// a verification method that earlier versions already had keeps its id, but holds another key now: id != thumbprint
+			if len(next.VerificationMethod) == 0 {
+				continue
+			}
+			nk := newC9Key()
+			repl, _ := did.NewVerificationMethod(next.VerificationMethod[len(next.VerificationMethod)-1].ID, ssi.JsonWebKey2020, target.id, nk.priv.Public())
+			next.VerificationMethod[len(next.VerificationMethod)-1].PublicKeyJwk = repl.PublicKeyJwk
+			valid = false
+		case "attack-invalid-embedded-method-foreign-id", "attack-invalid-embedded-method-not-thumbprint":
+			// a verification method that is not in the verificationMethod list but embedded in the capabilityInvocation relationship,
+			// with an id under another DID / an id that is not the key's thumbprint
+			nk := newC9Key()
+			mid := did.DIDURL{DID: target.id, Fragment: "embedded-not-the-thumbprint"}
+			if kind == "attack-invalid-embedded-method-foreign-id" {
+				mid = did.DIDURL{DID: did.MustParseDID("did:nuts:someoneElse"), Fragment: nk.thumb}
+			}
+			vm, _ := did.NewVerificationMethod(mid, ssi.JsonWebKey2020, target.id, nk.priv.Public())
+			next.CapabilityInvocation = append(next.CapabilityInvocation, did.VerificationRelationship{VerificationMethod: vm})
 			valid = false
 		case "attack-invalid-two-services-one-type":
 			svcN++
